@@ -716,6 +716,13 @@ class StmtMixin:
                 elif isinstance(cell, ObjCell):
                     raise Unsupported("havoc of object mutated in loop")
         for expr in sorted(attrs):
+            if expr.startswith("alloc:"):
+                # the loop body may create objects of this region
+                rname = expr[len("alloc:"):]
+                t = z3.Int(path.fresh_name(f"hv.alloc.{rname}"))
+                path.assume(t >= 0)
+                path.ghost.setdefault("alloc", {})[rname] = t
+                continue
             if expr.startswith("region:"):
                 # "region:<name>.<field>": the loop body may change this field of ANY object of the region
                 rname, fname = expr[len("region:"):].split(".")
